@@ -62,6 +62,9 @@ Inductive sstmt :=
 | SExpr (e : sexpr)                                   (* an expression statement (a call) *)
 | STryAttr (body handler : list sstmt)                (* try: body / except AttributeError: handler *)
 | STryAll (body handler : list sstmt)                 (* try: body / except BaseException: handler; raise *)
+| STryFinally (body fin : list sstmt)                 (* try: body / finally: fin *)
+| STryExc (e : string) (body handler : list sstmt)    (* try: body / except Exception as e: handler; raise *)
+| SForEnum (i x : string) (e : sexpr) (body : list sstmt)   (* for i, x in enumerate(e): body *)
 | SRaise (e : sexn).
 
 Record sfun := mkfun { f_params : list string; f_body : list sstmt }.
@@ -139,6 +142,12 @@ Fixpoint eval (env : senv) (s : tls) (e : sexpr) {struct e} : slres * tls :=
       | (SRVal (SVInt x), s') =>
           match eval env s' b with
           | (SRVal (SVInt y), s'') => (SRVal (SVBool (negb (x =? y)%Z)), s'')
+          | (SRVal _, s'') => (SRExn XOther, s'')
+          | r => r
+          end
+      | (SRVal (SVStr x), s') =>
+          match eval env s' b with
+          | (SRVal (SVStr y), s'') => (SRVal (SVBool (negb (String.eqb x y))), s'')
           | (SRVal _, s'') => (SRExn XOther, s'')
           | r => r
           end
@@ -245,6 +254,17 @@ Fixpoint bind_names (env : senv) (xs : list string) (vs : list sval) : option se
   | _, _ => None
   end.
 
+(* for i, x in enumerate(l): body -- the loop over the list, with the body's meaning as a parameter *)
+Fixpoint for_enum (body : senv -> tls -> sout) (i x : string) (l : list sval) (k : nat) (env : senv) (s : tls) : sout :=
+  match l with
+  | [] => SONormal env s
+  | v :: r =>
+      match body (supd (supd env i (SVInt (Z.of_nat k))) x v) s with
+      | SONormal env' s' => for_enum body i x r (S k) env' s'
+      | o => o
+      end
+  end.
+
 Fixpoint exec (env : senv) (s : tls) (st : sstmt) {struct st} : sout :=
   let exec_list :=
     (fix exec_list (env : senv) (s : tls) (l : list sstmt) {struct l} : sout :=
@@ -328,6 +348,37 @@ Fixpoint exec (env : senv) (s : tls) (st : sstmt) {struct st} : sout :=
           | o => o
           end
       | o => o
+      end
+  | STryExc e body handler =>
+      match exec_list env s body with
+      | SORaise XBase s' => SORaise XBase s'                    (* not an Exception: passes through *)
+      | SORaise x s' =>
+          match exec_list (supd env e SVNone) s' handler with   (* the exception object itself is opaque *)
+          | SONormal _ s'' => SORaise x s''                     (* the handler ends in a bare `raise` *)
+          | o => o
+          end
+      | o => o
+      end
+  | STryFinally body fin =>
+      let after (s' : tls) (o : sout) : sout :=
+        match exec_list env s' fin with
+        | SONormal _ s'' => match o with
+                            | SONormal env' _ => SONormal env' s''
+                            | SOReturn v _ => SOReturn v s''
+                            | SORaise x _ => SORaise x s''
+                            end
+        | o' => o'                                   (* the finally block itself returned or raised *)
+        end in
+      match exec_list env s body with
+      | SONormal env' s' => after s' (SONormal env' s')
+      | SOReturn v s' => after s' (SOReturn v s')
+      | SORaise x s' => after s' (SORaise x s')
+      end
+  | SForEnum i x e body =>
+      match eval env s e with
+      | (SRVal (SVList l), s') => for_enum (fun env' s'' => exec_list env' s'' body) i x l O env s'
+      | (SRVal _, s') => SORaise XOther s'
+      | (SRExn x', s') => SORaise x' s'
       end
   | SRaise x => SORaise x s
   end.
@@ -443,4 +494,111 @@ Fixpoint run_ops (m : smodule) (ops : list sop) (s : tls) : list string :=
       | Some (res, s') => (show_sres res ++ " | " ++ show_tls s') :: run_ops m r s'
       | None => ["no-such-function " ++ f]
       end
+  end.
+
+(* ---------- scripted stand-ins for the code outside the fragment, for the correspondence check of the translated
+   fragments of _MetaPyTree._check against CPython running the very same statements ---------- *)
+Definition dict_bind (d : dict) (k : string) (z : Z) : dict :=
+  match d with DEmpty => DArgs [(k, z)] | DArgs m => DArgs (aset m k z) | x => x end.
+
+(* what an in-place mutation of the live dictionaries of the top frame looks like in the store *)
+Definition upd_top (s : tls) (f : sval -> sval) : tls :=
+  match t_stack s with
+  | Some (x :: l) => with_stack s (Some (set_last (x :: l) (f (last (x :: l) SVNone))))
+  | _ => s
+  end.
+Definition bind_in_frame (slot : nat) (k : string) (z : Z) (fr : sval) : sval :=
+  match fr with
+  | SVTuple [SVDict a; SVDict b; SVDict c; SVDict d] =>
+      match slot with
+      | O => SVTuple [SVDict (dict_bind a k z); SVDict b; SVDict c; SVDict d]
+      | _ => SVTuple [SVDict a; SVDict b; SVDict (dict_bind c k z); SVDict d]
+      end
+  | x => x
+  end.
+
+Definition script_ext : extern_t := fun f args s =>
+  let ok := if String.eqb f "_check_shape" then SVStr "" else SVBool true in
+  let no := if String.eqb f "_check_shape" then SVStr "msg" else SVBool false in
+  let slot := if String.eqb f "_check_shape" then O else 2%nat in
+  match args with
+  | SVInt 0 :: _ => (if String.eqb f "tree_flatten" then SRVal (SVTuple [SVList []; SVNone]) else SRVal ok, s)
+  | SVInt 1 :: _ => (SRVal no, s)
+  | SVInt 2 :: _ => (SRExn XAnnotation, s)
+  | SVInt 3 :: _ => (SRExn XOther, s)
+  | SVInt 4 :: _ => (SRExn XBase, s)
+  | SVInt 5 :: _ => (SRVal (SVBool true), mktls (t_stack s) (Some (SVStr "x")) (t_flat s))       (* leaves a label behind *)
+  | SVInt 6 :: _ => (SRVal (SVBool true), mktls (t_stack s) (t_path s) (Some (SVBool false)))    (* a nested check's finally *)
+  | SVInt 7 :: _ => (SRVal (SVTuple [SVList []; SVNone]), mktls (t_stack s) (t_path s) (Some (SVBool false)))
+  | SVInt 8 :: _ => (SRVal ok, upd_top s (bind_in_frame slot "n" 3))                              (* binds in place, succeeds *)
+  | SVInt 9 :: _ => (SRVal no, upd_top s (bind_in_frame slot "n" 3))                              (* binds in place, then fails *)
+  | SVInt 10 :: _ => (SRExn XOther, upd_top s (bind_in_frame slot "n" 3))
+  | SVInt 11 :: _ => (SRExn XBase, upd_top s (bind_in_frame slot "n" 3))
+  | _ => (SRExn XOther, s)
+  end.
+
+Fixpoint state_after_ops (m : smodule) (ops : list sop) (s : tls) : tls :=
+  match ops with
+  | [] => s
+  | o :: r => let '(f, args) := op_call o in
+              match run_acc m f args s with Some (_, s') => state_after_ops m r s' | None => s end
+  end.
+
+Definition run_fragment (m : smodule) (pre : list sop) (f : string) (args : list sval) : string :=
+  match run_ext script_ext m f args (state_after_ops m pre (mktls None None None)) with
+  | Some (res, s') => show_sres res ++ " | " ++ show_tls s'
+  | None => "no-such-function " ++ f
+  end.
+
+(* scripted stand-ins for everything the decorated-call wrapper calls out to; the scenario number says what each of them does *)
+Definition script_ext_w (sc : Z) : extern_t := fun f args s =>
+  let bit (n : Z) : bool := Z.odd (sc / n) in
+  if String.eqb f "config.jaxtyping_disable" then (SRVal (SVBool (bit 1)), s)
+  else if String.eqb f "getattr" then
+    match args with
+    | SVStr "fn" :: _ => (SRVal (SVBool (bit 2)), s)
+    | SVStr "wrapper" :: _ => (SRVal (SVBool (bit 4)), s)
+    | _ => (SRExn XOther, s)
+    end
+  else if String.eqb f "wrapped_fn_holder[0]" then (SRVal (SVStr "wrapper"), s)
+  else if String.eqb f "fn" then (if bit 64 then SRExn XOther else SRVal (SVInt 9), s)
+  else if String.eqb f "param_signature.bind" then (if bit 8 then SRExn XOther else SRVal (SVStr "bound"), s)
+  else if String.eqb f "bound.apply_defaults" then (SRVal SVNone, s)
+  else if String.eqb f "bound.arguments" then (SRVal (SVDict (DArgs [("k", 2%Z)])), s)
+  else if String.eqb f "wrapped_fn_impl" then
+    match ((sc / 16) mod 4)%Z with
+    | 0%Z => (SRVal (SVInt 7), s)
+    | 1%Z => (SRExn XOther, s)
+    | 2%Z => (SRExn XBase, s)
+    | _ => (SRVal (SVInt 7), upd_top s (bind_in_frame 0 "n" 3))
+    end
+  else (SRExn XOther, s).
+
+Definition frame_has_bindings (args : list sval) : bool :=
+  match args with
+  | [SVTuple [SVDict DEmpty; SVDict DEmpty; SVDict DEmpty; _]] => false
+  | _ => true
+  end.
+
+Definition script_ext_o (sc : Z) : extern_t := fun f args s =>
+  let bit (n : Z) : bool := Z.odd (sc / n) in
+  if String.eqb f "signature.bind" then (if bit 8 then SRExn XOther else SRVal (SVStr "bound"), s)
+  else if String.eqb f "bound.apply_defaults" then (SRVal SVNone, s)
+  else if String.eqb f "bound.arguments" then (SRVal (SVDict (DArgs [("k", 2%Z)])), s)
+  else if String.eqb f "fn" then
+    match ((sc / 16) mod 4)%Z with
+    | 0%Z => (SRVal (SVInt 9), s)
+    | 1%Z => (SRExn XOther, s)
+    | 2%Z => (SRExn XBase, s)
+    | _ => (SRExn XOther, upd_top s (bind_in_frame 0 "n" 3))
+    end
+  else if String.eqb f "sys.version_info >= (3, 11)" then (SRVal (SVBool true), s)
+  else if String.eqb f "_no_jaxtyping_note" then (SRVal (SVBool true), s)
+  else if String.eqb f "shape_str" then (SRVal (SVStr (if frame_has_bindings args then "bindings" else "")), s)
+  else (SRVal SVNone, s).
+
+Definition run_fragment_w (sc : Z) (m : smodule) (pre : list sop) (f : string) (args : list sval) : string :=
+  match run_ext (if String.eqb f "old_wrapped_fn" then script_ext_o sc else script_ext_w sc) m f args (state_after_ops m pre (mktls None None None)) with
+  | Some (res, s') => show_sres res ++ " | " ++ show_tls s'
+  | None => "no-such-function " ++ f
   end.
